@@ -286,6 +286,8 @@ def run(chk, R, tier, seed):
     for c in ("non-terminating factor", "fraction amount", "triples",
               "cross-type rejections", "unit-kind|term", "unit-kind|derived",
               "unit-kind|scaled", "worlds",
+              "worlds with a deviating converter registered on a type with "
+              "reference unit",
               "worlds with definition chain depth >= 3", "quantized"):
         chk.require(c)
     cases = predefined_cases(chk, rng, tier)
